@@ -1173,7 +1173,13 @@ pub fn step(cfg: &Cfg, sut: &mut Sut, m: &mut Model, pre: &Snapshot, op: Op, has
             let live_evicted_in_this_step = pre
                 .entries
                 .iter()
-                .any(|x| x.admitted && dead(x.key as u8).is_none() && m.keys[x.key as usize].has && !post_phys.contains_key(&(x.key as u8)));
+                .any(|x| {
+                    // (an entry whose insert was still queued is admitted by this run
+                    // before the purge scan and can be evicted for size after it too)
+                    let joins_queue = x.admitted
+                        || pre.write_ops.iter().any(|o| matches!(o, OpSnap::Upsert { entry, old_weight: 0, .. } if entry.info_addr == x.info_addr));
+                    joins_queue && dead(x.key as u8).is_none() && m.keys[x.key as usize].has && !post_phys.contains_key(&(x.key as u8))
+                });
             let blocked = ahead_live(&post.probation) || (m.ttl_dead(cfg, k) && ahead_live(&post.write_order)) || live_evicted_in_this_step;
             let site = if same_reading {
                 "read-at-the-reading-of-invalidate_all"
